@@ -491,3 +491,70 @@ Proof. exact fn_z_score_eq. Qed.
 Theorem C17_source_z_p : forall phi z2,
   p_of phi (Zfin z2) = Some (qmul z_two (phi z2)) /\ qmul z_two (phi z2) == fn_z_p (phi z2).
 Proof. exact fn_z_p_eq. Qed.
+
+(* ==== loop ties (one iteration / one row of the Python code, translated from /repo on every run; LOOP_TIES_GUIDE) ==== *)
+From CNV Require Import Gen.FnSegCalcIntervals Gen.FnSegCiBoots Gen.FnSegIntervalCols Gen.FnBintestRow Gen.FnBintestBH
+  Proofs.FnSegCalcIntervals Proofs.FnSegCiBoots Proofs.FnSegIntervalCols Proofs.FnBintestRow Proofs.FnBintestBH.
+
+(* segmetrics.calc_intervals, one iteration of `for i, ser in enumerate(bins_log2s)`: entry i of the two output arrays is
+   NaN for a segment without bins, else the pair func returns (first component low, second high) *)
+Theorem C17_source_calc_step : forall i n r,
+  py_calc_iter i n r = match n with O => None | S _ => Some r end.
+Proof. exact source_calc_step. Qed.
+
+(* ... the model's interval functions are that iteration, func being the bootstrap CI resp. the percentile pair *)
+Theorem C17_source_calc_intervals_ci : forall O alpha bootstraps smoothed vals wts i,
+  ci_func O alpha bootstraps smoothed vals wts
+  = py_calc_iter i (length vals) (ci_values O alpha bootstraps smoothed vals wts).
+Proof. exact source_calc_intervals_ci. Qed.
+
+Theorem C17_source_calc_intervals_pi : forall alpha vals i,
+  pi_func alpha vals = py_calc_iter i (length vals) (pi_values alpha vals).
+Proof. exact source_calc_intervals_pi. Qed.
+
+(* confidence_interval_bootstrap, the whole `if bootstraps <= 2 / alpha:` statement = the model's n_boot *)
+Theorem C17_source_ci_bootstraps : forall b q2a alpha, q2a == 2 / alpha ->
+  n_boot b q2a = fn_ci_bootstraps b alpha.
+Proof. exact source_n_boot. Qed.
+
+Theorem C17_source_ci_bootstraps_value : forall b alpha,
+  fn_ci_bootstraps b alpha = if Qle_bool (inject_Z b) (2 / alpha) then Qceiling (2 / alpha) else b.
+Proof. exact source_n_boot_value. Qed.
+
+(* do_segmetrics, the interval columns of a segment row: ci_lo / ci_hi / pi_lo / pi_hi under the two requests *)
+Theorem C17_source_interval_columns : forall O cfg seg_log2 vals wts,
+  row_assignments O cfg seg_log2 vals wts
+  = named_stats (loc_stat O) (c_loc cfg) vals
+    ++ named_stats (spread_stat O) (c_spread cfg) (map (fun x => qsub x seg_log2) vals)
+    ++ py_interval_cols O cfg vals wts.
+Proof. exact source_interval_columns. Qed.
+
+(* bintest.do_bintest per row: the hit mask `p_bintest < alpha` (NaN: no hit) and the stores log2 := resid, probes := 1
+   give the model's hit table *)
+Theorem C17_source_bintest_is_sig : forall q alpha,
+  fn_bintest_is_sig q alpha = match q with Some x => qlt_b x alpha | None => false end.
+Proof. exact source_bintest_is_sig. Qed.
+
+Theorem C17_source_bintest_table : forall ps cs alpha,
+  bintest_table_with ps cs alpha
+  = concat (map (fun cq => if fn_bintest_is_sig (snd cq) alpha then [py_hit_row cq] else [])
+                (combine cs (bh_opt ps))).
+Proof. exact source_bintest_table. Qed.
+
+Theorem C17_source_bintest_hits : forall ps cs alpha,
+  bintest_with ps cs alpha
+  = concat (map (fun cq => if fn_bintest_is_sig (snd cq) alpha
+                           then [(c_idx (fst cq), fst (fn_bintest_stores (c_res (fst cq))), p_value (snd cq))]
+                           else [])
+                (combine cs (bh_opt ps))).
+Proof. exact source_bintest_hits. Qed.
+
+(* bintest.p_adjust_bh per element: steps = float(len(p)) / arange(len(p), 0, -1) and the cap min(1, running minimum) *)
+Theorem C17_source_bh : forall ps,
+  bh ps =
+  let n := length ps in
+  let d := by_descend ps in
+  let q := map fn_bh_cap (cummin (py_steps_mul n n (map fst d))) in
+  let tab := combine (map snd d) q in
+  map (fun i => lookup_idx i tab) (seq 0 n).
+Proof. exact source_bh. Qed.
